@@ -122,12 +122,14 @@ def worker(case):
         text = vw.render(vad, order=list(order))
         tag = "chain:%d" % len(order)
     else:
-        _, expr, pw, positional, target, _ = case
+        _, expr, pw, positional, target = case[:5]
+        style = case[5] if len(case) > 6 else "header"
         vad = expr_vad(expr, pw, positional, target)
-        text = vw.render(vad)
+        text = vw.render(vad, style=style)
         shape = "+".join(a[0] for a in expr) or "empty"
         ew = len(vw.expand(expr, {k: (v[0], v[1], True) for k, v in NETS.items()}))
-        tag = "expr:%s:%s:%s:%s" % (shape, "full" if ew == pw else "narrow", "positional" if positional else "named", target)
+        tag = "expr:%s:%s:%s:%s%s" % (shape, "full" if ew == pw else "narrow", "positional" if positional else "named", target,
+                                     ":ansi" if style == "ansi" else "")
     key = core.digest(text)
     exp = vw.expected(vad)
     try:
@@ -166,6 +168,8 @@ def cases(tier):
                     if positional and wd == 0:
                         continue  # an empty positional connection is not in the documented subset
                     out.append(("expr", expr, pw, positional, target, "asc"))
+                    if target != "undeclared":
+                        out.append(("expr", expr, pw, positional, target, "ansi", "asc"))
     return out
 
 
